@@ -213,7 +213,9 @@ class _CommonFile:
                     "username occurs multiple times in source file: %r",
                     key,
                 )
-                skipped += line
+                # NOTE: the duplicate line is not preserved: writing it back would list
+                #       the user twice, and bring the user back (with the stale hash)
+                #       once the first entry is deleted.
                 continue
 
             # flush buffer of skipped whitespace lines
